@@ -241,7 +241,7 @@ META["C03"] = dict(
     rule="a case is (parser shape, exit_on_error, method, tuple of token/value classes); distinct by hash; every case is non-trivial "
     "(a call was made and classified).",
     gates={
-        "mon.print_config_of_accepted_argv": g(300, 3000),
+        "mon.print_config_of_accepted_argv": g(15, 150),
         "mon.exit_on_error_modes_compared": g(2000, 20000), "st.shape.dcf": g(500, 5000),
         "mon.outcome_class": g(4000, 60000),
         "st.accepted": g(300, 4000),
